@@ -20,9 +20,12 @@
         marking it; blockIndex.DelNode also clears the deleted node's parent
         pointer, so the nodes that were its children at that moment ([vcut])
         no longer reach the best chain: FindFork answers nil for them and
-        their descendants — connectBestChain then dereferences nil in its
-        side-chain log line (a panic) or asks reorganizeChain to detach the
-        whole chain, which fails before anything is changed).
+        their descendants, and connectBestChain (repaired) refuses such a
+        block with ErrParentBlockNoExist; before the repair it dereferenced
+        nil in its side-chain log line — a panic — or asked reorganizeChain
+        to detach the whole chain).  [VPanic] stays in the error type (the
+        harness reports a recovered panic with this code) but no function of
+        the model produces it.
 
     Differences to C25's model are confined to: connectBlock may fail; a
     reorganisation stops at the first failing attach (and stays there);
@@ -166,13 +169,13 @@ Definition vconnect_best (fin : Z) (s : vstate) (b : block) (td : Z) (body : N)
         let fork := vbranch (S (Z.to_nat (bht b))) (vidx s) (vmain s) (bid b) in
         if (td <=? vtd t) || (bht b <? fin + margin) then
           match fork with
-          | BNil => (s, false, VPanic)      (* fork.height in the log line *)
+          | BNil => (s, false, VParent)     (* no fork point: ErrParentBlockNoExist *)
           | _ => (s, false, VNone)
           end
         else
           match fork with
           | BFuel => (s, false, VFuel)
-          | BNil => (s, false, VLoad)       (* detach list runs past the genesis block *)
+          | BNil => (s, false, VParent)     (* no fork point: ErrParentBlockNoExist *)
           | BFork p fk =>
               match load_all (vstore s) (rev p) with
               | None => (s, false, VLoad)
